@@ -663,7 +663,7 @@ func FindSequencesInList(paths []string, opts ...FileOption) (FileSequences, err
 		var item fileItem
 		item.DirName, item.FileName = filepath.Split(path)
 
-		if !strings.HasSuffix(item.DirName, sep) {
+		if item.DirName != "" && !strings.HasSuffix(item.DirName, sep) {
 			item.DirName += sep
 		}
 
